@@ -5289,7 +5289,8 @@ static int32_t getImplicitBitString(psPool_t *pool, const unsigned char **pp,
     }
 
     p++;
-    if (getAsnLength(&p, len, bitLen) < 0
+    /* One byte (the tag) of the len available bytes has been consumed. */
+    if (getAsnLength(&p, len - 1, bitLen) < 0
         || *bitLen < 2)
     {
         psTraceCrypto("Malformed implicitBitString\n");
